@@ -116,6 +116,73 @@ def boundary_vals(rng):
     ]
 
 
+def value_only_strings(rng):
+    """legal as a VALUE, illegal as a KEY (upper case, blanks, punctuation only values allow, a second '@', over-long
+    tenant part, ...): a validator that remembers anything across calls confuses the two grammars on these"""
+    return cached(rng, "vo", lambda r: [
+        b"Prod", b"Foo", b"A", b"has space", b" lead", b"x!y", b"~", b"a.b", b"a:b", b"a+b", b"\"q\"", b"aB", b"_a", b"-a", b"*", b"/a",
+        b"@", b"a@", b"@a", b"a@b@c", b"a@@b", b"a@_b", b"a@B",
+        simple_key(r, 242) + b"@" + simple_key(r, 3), simple_key(r, 10) + b"@" + simple_key(r, 15), b"Z" * 256, b"a" * 255 + b"A",
+    ])
+
+
+def history_cases(rng, n):
+    """hidden state across calls: the same bytes validated in one role and IMMEDIATELY afterwards in the other role, on one
+    thread, nothing else accepted in between -- across consecutive operations and inside one FromHeader input"""
+    out = []
+    full32 = ",".join("f%d=v" % i for i in range(32)).encode()
+    for V in value_only_strings(rng):
+        assert vval(V) and not vkey(V), V
+        for base in (b"k1=v1,k2=v2", b"", full32):
+            b = hx(base)
+            out.append("H %s | SET 0 %s %s | SET 1 %s %s | HDR 2 | RT 2" % (b, hx(b"env"), hx(V), hx(V), hx(b"x")))
+            out.append("H %s | SET 0 %s %s | DEL 1 %s | EMPTY 2" % (b, hx(b"k1"), hx(V), hx(V)))
+            out.append("H %s | SET 0 %s %s | GET 1 %s | SET 1 %s %s" % (b, hx(b"k1"), hx(V), hx(V), hx(V), hx(b"y")))
+            out.append("H %s | SET 0 %s %s | DEL 0 %s | SET 0 %s %s" % (b, hx(b"k1"), hx(V), hx(V), hx(V), hx(V)))
+            out.append("H %s | SET 0 %s %s | SET 0 %s %s | DEL 1 %s | DEL 2 %s" % (b, hx(b"k1"), hx(V), hx(V), hx(V), hx(V), hx(V)))
+        if b"," not in V and V == V.strip():
+            # one FromHeader input: a member's value is the next member's key (and the harmless opposite order)
+            for h in (b"a=" + V + b"," + V + b"=b", V + b"=b,a=" + V, b"a=1,k=" + V + b"," + V + b"=w,b=2", b"k=" + V + b" , " + V + b"=w",
+                      b"k=" + V + b",," + V + b"=w", b"k=" + V + b"," + V + b"=" + V, b"a=" + V + b",b=" + V + b"," + V + b"=c"):
+                out.append("H %s | RT 0" % hx(h))
+                out.append("H x | FH %s | RT 1 | FH %s" % (hx(h), hx(h)))
+            # across operations into a parse, and out of a parse into an operation
+            out.append("H %s | SET 0 %s %s | FH %s | FH %s" % (hx(b"a=1"), hx(b"k"), hx(V), hx(V + b"=w"), hx(b"a=1," + V + b"=w")))
+            out.append("H %s | DEL 0 %s | SET 0 %s %s | GET 0 %s" % (hx(b"a=1,k=" + V), hx(V), hx(V), hx(b"x"), hx(V)))
+    # the same shapes with a string that is legal in BOTH roles (every legal key is a legal value): must stay harmless
+    for K in (b"a", b"t@v", simple_key(rng, 256), mt_key(rng, 241, 14)):
+        out.append("H %s | SET 0 %s %s | SET 1 %s %s | DEL 2 %s | RT 2" % (hx(b"k1=v1"), hx(b"k"), hx(K), hx(K), hx(b"x"), hx(K)))
+        out.append("H %s | RT 0" % hx(b"a=" + K + b"," + K + b"=b"))
+    # a REJECTED string repeated at once in the same and in the other role (a negative memo would show here), and an accepted
+    # key repeated as a value
+    for B in (b"BAD", b"a,b", b"a=b", b"v ", b"", b"\x7f", b"a" * 257):
+        out.append("H %s | SET 0 %s %s | SET 0 %s %s | SET 0 %s %s | DEL 0 %s | DEL 0 %s | GET 0 %s" %
+                   (hx(b"k1=v1"), hx(B), hx(b"v"), hx(B), hx(b"v"), hx(b"k"), hx(B), hx(B), hx(B), hx(B)))
+    for _ in range(40 * n):
+        V = rng.choice(value_only_strings(rng))
+        st = members_for(rng, rng.choice([0, 1, 3, 30, 31, 32]))
+        toks = ["H " + hx(join_ows(rng, st, False))]
+        nobj = 1
+        for _ in range(1 + rng.below(5)):
+            i = rng.below(nobj)
+            k = rng.choice(POOL + FILL[:4])
+            toks.append("SET %d %s %s" % (i, hx(k), hx(V))); nobj += 1
+            op = rng.below(4)
+            j = rng.choice([i, nobj - 1])
+            if op == 0:
+                toks.append("SET %d %s %s" % (j, hx(V), hx(rnd_val(rng, 1 + rng.below(3))))); nobj += 1
+            elif op == 1:
+                toks.append("DEL %d %s" % (j, hx(V))); nobj += 1
+            elif op == 2:
+                toks.append("GET %d %s" % (j, hx(V)))
+            elif b"," not in V and V == V.strip():
+                toks.append("FH " + hx(V + b"=w," + rng.choice(POOL) + b"=" + V)); nobj += 1
+            if rng.chance(1, 2):
+                toks.append("RT %d" % (nobj - 1)); nobj += 1
+        out.append(" | ".join(toks))
+    return out
+
+
 def cached(rng, name, f):
     """boundary tables are drawn once per generator run (from the same rng) and reused"""
     d = rng.__dict__.setdefault("_c14", {})
@@ -169,27 +236,34 @@ def ops_case(rng, h, nops, start_focus=None):
     """operation sequence steered by the reference states"""
     states = [ref_parse(h)]
     toks = ["H " + hx(h)]
+    last_val = None     # the value of the immediately preceding Set: reused as the next key (hidden state across calls)
     for _ in range(nops):
         # target: usually the newest object, otherwise any earlier one
         i = len(states) - 1 if rng.chance(3, 4) else rng.below(len(states))
         st = states[i]
         r = rng.below(100)
+        echo = last_val if (last_val is not None and rng.chance(1, 3)) else None
+        last_val_next = None
+        if echo is not None and r >= 80:
+            r = rng.below(80)
         if r < 46:
-            k = pick_key(rng, st)
-            if len(st) >= 31 and rng.chance(1, 2):
+            k = pick_key(rng, st) if echo is None else echo
+            if echo is None and len(st) >= 31 and rng.chance(1, 2):
                 # aim at the limit: a fresh key or one that is present
                 k = rng.choice(st)[0] if rng.chance(1, 2) else b"n%d" % rng.below(1000)
-            v = pick_val(rng)
+            v = pick_val(rng) if rng.chance(3, 4) else rng.choice(value_only_strings(rng))
             toks.append("SET %d %s %s" % (i, hx(k), hx(v)))
             states.append(ref_set(st, k, v))
-            if rng.chance(1, 3):   # read it back at once
+            last_val_next = v
+            if echo is None and rng.chance(1, 4):   # read it back at once
                 toks.append("GET %d %s" % (len(states) - 1, hx(k)))
+                last_val_next = None
         elif r < 60:
-            k = pick_key(rng, st)
+            k = pick_key(rng, st) if echo is None else echo
             toks.append("DEL %d %s" % (i, hx(k)))
             states.append(ref_del(st, k))
         elif r < 80:
-            toks.append("GET %d %s" % (i, hx(pick_key(rng, st))))
+            toks.append("GET %d %s" % (i, hx(pick_key(rng, st) if echo is None else echo)))
         elif r < 88:
             toks.append("RT %d" % i)
             states.append(ref_parse(ref_hdr(st)))
@@ -201,6 +275,7 @@ def ops_case(rng, h, nops, start_focus=None):
             hh = rnd_header(rng)
             toks.append("FH " + hx(hh))
             states.append(ref_parse(hh))
+        last_val = last_val_next
     return " | ".join(toks)
 
 
@@ -302,6 +377,8 @@ def gen(rng, tier):
                 cases.append("H %s | SET 0 %s %s | GET 1 %s | RT 1 | SET 0 %s %s | RT 3" % (hx(base), hx(b"a"), hx(v), hx(b"a"), hx(b"zz"), hx(v)))
             if b"," not in v:
                 cases.append("H %s | GET 0 %s | RT 0" % (hx(b"a=1,k=" + v + b",b=2"), hx(b"k")))
+    # ---- hidden state across calls (value role then key role of the same bytes, within one thread)
+    cases += history_cases(rng, n)
     # ---- operation sequences
     for _ in range(1300 * n):
         start = rng.below(10)
